@@ -234,6 +234,7 @@ func checkBaseDisplay(c *Ctx, rule, label string, str *ssa.Function, withHeight 
 	}
 	want := []string{"AntennaRefX", "AntennaRefY", "AntennaRefZ"}
 	gotCoords, gotHeight := false, !withHeight
+	var shown []*ssa.Call
 	rawInts := map[string]bool{}
 	eachInstr(str, func(ins ssa.Instruction) {
 		call, ok := ins.(*ssa.Call)
@@ -276,18 +277,30 @@ func checkBaseDisplay(c *Ctx, rule, label string, str *ssa.Function, withHeight 
 		}
 		if len(names) == 3 && names[0] == want[0] && names[1] == want[1] && names[2] == want[2] && all4 {
 			gotCoords = true
+			shown = append(shown, call)
 			c.OK(rule, label+":coords", call.Pos(), "X, Y, Z in order, each float64(field)*0.0001 formatted %.4f")
 		} else if len(names) == 3 {
 			c.Fail(rule, label+":coords", call.Pos(), "refuted", fmt.Sprintf("the coordinate line shows %v, expected X, Y, Z", names))
 		}
 		if len(names) == 1 && names[0] == "AntennaHeight" && all4 {
 			gotHeight = true
+			shown = append(shown, call)
 			c.OK(rule, label+":height", call.Pos(), "height = float64(AntennaHeight)*0.0001 formatted %.4f")
 		}
 	})
 	c.Check(gotCoords, rule, label+":coords-present", str.Pos(), "the readable form shows the three coordinates scaled by 0.0001 to four decimals", "the readable form does not show X, Y, Z as field*0.0001 with %.4f")
 	if withHeight {
 		c.Check(gotHeight, rule, label+":height-present", str.Pos(), "the readable form shows the antenna height scaled by 0.0001 to four decimals", "the readable form does not show the height as field*0.0001 with %.4f")
+	}
+	// shown for every value: no path through the display function goes round the formatting call
+	for _, call := range shown {
+		q := pathQuery{avoid: func(i ssa.Instruction) bool { return i == ssa.Instruction(call) }, goal: isReturn}
+		path, _ := q.search(str.Blocks[0], -1)
+		if path != nil {
+			c.Fail(rule, label+":always-shown", call.Pos(), "refuted", "the display can return without formatting this value (for some field values another text is shown instead of the encoded integer times 0.0001)", c.P.blockPath(path)...)
+		} else {
+			c.OK(rule, label+":always-shown", call.Pos(), "every path through the display function passes the formatting call")
+		}
 	}
 	c.Check(rawInts["AntennaRefX"] && rawInts["AntennaRefY"] && rawInts["AntennaRefZ"], rule, label+":debug-raw-integers", str.Pos(), "the debug form prints the raw integers", "the debug form does not print the raw coordinate integers")
 }
